@@ -272,10 +272,14 @@ Definition create_table (st : est) (placed : list (farg * Z)) (size align vt_ref
   if negb (u32 (base - vt_offset) =? vt_base) then None else
   emit_front st1 (le32 vt_offset ++ table_data placed base 0 ++ zeros pad).
 
-(* start_table; the add calls in order; end_table *)
+(* start_table; the add calls in order; end_table.
+   The table size stored in the vtable is ds_offset + field_size and every field position is below it, all 16 bit
+   (voffset_t): a table whose inline data does not fit is refused (table_add / table_add_offset fail at the field that
+   crosses the limit; the positions only grow, so this is the same as testing the final size). *)
 Definition build_table (st : est) (adds : list farg) : option (Z * list emit * est) :=
   if has_dup (map farg_id adds) then None else
   let '(placed, size) := place adds 0 in
+  if 65535 <? size + 4 then None else
   let align := table_align adds 4 in
   match create_cached_vtable st (vtable_bytes placed size) with
   | None => None
